@@ -7,7 +7,8 @@
     succeeds;
  3. direct: a small model with the identifier in the role state / parameter / intermediate against
     the same model with the identifier renamed to a fresh name: either generation (or loading)
-    fails with an error, or every function of every backend (numpy always; jax and C on a
+    fails with an error, or every function (generated with and without remove_unused; roles include
+    quantities that no expression reads, which remove_unused treats differently) of every backend (numpy always; jax and C on a
     subsample) returns the same numbers as the renamed model; a failure only when the generated
     function is called, a module that does not import / compile, or different numbers are violations.
 """
@@ -48,11 +49,21 @@ def model_text(ident, role):
         # an intermediate defined directly by a conditional (printed through the Piecewise-assignment path)
         return (f"states(x=0.5, z=2, w=1)\nparameters(p=1.5, q=0.25)\n{ident} = Conditional(Gt(x, 0), p*x + z, z - 1)\nv2 = {ident}*{ident} + 1\n"
                 f"dx_dt = -q*x + {ident}\ndz_dt = Conditional(Gt({ident}, 0), -z, z) + v2*w\ndw_dt = {ident} - w*abs(x)\n")
+    if role == "unread_state":
+        # an accumulator: assigned by every scheme, read by no expression (so remove_unused might drop its binding)
+        return (f"states(x=0.5, z=2, {ident}=1)\nparameters(p=1.5, q=0.25)\nu = p*x + z\n"
+                f"dx_dt = -q*x + u\ndz_dt = Conditional(Gt(x, 0), -z, z) + x\nd{ident}_dt = u - q\n")
+    if role == "unread_intermediate":
+        return (f"states(x=0.5, z=2, w=1)\nparameters(p=1.5, q=0.25)\nu = p*x + z\n{ident} = u*u - w\n"
+                f"dx_dt = -q*x + u\ndz_dt = Conditional(Gt(x, 0), -z, z) + x*w\ndw_dt = u - w*abs(x)\n")
+    if role == "unread_parameter":
+        return (f"states(x=0.5, z=2, w=1)\nparameters(p=1.5, q=0.25, {ident}=3)\nu = p*x + z\n"
+                f"dx_dt = -q*x + u\ndz_dt = Conditional(Gt(x, 0), -z, z) + x*w\ndw_dt = u - w*abs(x)\n")
     return (f"states(x=0.5, z=2, w=1)\nparameters(p=1.5, q=0.25)\n{ident} = p*x + z\nv2 = {ident}*{ident} + 1\n"
             f"dx_dt = -q*x + {ident}\ndz_dt = Conditional(Gt({ident}, 0), -z, z) + v2*w\ndw_dt = {ident} - w*abs(x)\n")
 
 
-def observe(text, backend, ident_map):
+def observe(text, backend, ident_map, ru=False):
     """returns ('error', class) or ('ok', {function: values by canonical name})"""
     ode, _, err, ex = impl.load_text(text)
     if err is not None:
@@ -70,17 +81,17 @@ def observe(text, backend, ident_map):
         ss = [s.name for s in ode.sorted_states()]
         pn = [p.name for p in ode.parameters]
         order = [a_.name for a_ in ode.sorted_assignments()]
-        stv = {"x": 0.75, "z": -1.25, "w": 0.5}
-        pav = {"p": 1.5, "q": 0.25}
+        stv = {"x": 0.75, "z": -1.25, "w": 0.5, "ID": 0.375}
+        pav = {"p": 1.5, "q": 0.25, "ID": 1.75}
         st = [stv.get(canon(s) if canon(s) in stv else "x", 0.75) if canon(s) not in stv else stv[canon(s)] for s in ss]
         st = [stv[canon(s)] if canon(s) in stv else 0.75 for s in ss]
         ps = [pav[canon(p)] if canon(p) in pav else 1.5 for p in pn]
         stiff = [s for s in ss if canon(s) in ("ID", "x", "z")]   # chosen by role, not by slot order
         out = {}
         if backend in ("numpy", "jax"):
-            code = impl.gen_python(ode, schemes=impl.ALL_SCHEMES, backend=backend, stiff_states=stiff)
+            code = impl.gen_python(ode, schemes=impl.ALL_SCHEMES, backend=backend, stiff_states=stiff, remove_unused=ru)
         else:
-            code = cback.gen_c(ode, schemes=impl.ALL_SCHEMES, stiff_states=stiff)
+            code = cback.gen_c(ode, schemes=impl.ALL_SCHEMES, stiff_states=stiff, remove_unused=ru)
     except Exception as ex2:  # noqa: BLE001
         return ("error", "generate:" + type(ex2).__name__)
     try:
@@ -133,7 +144,12 @@ def main(argv=None):
     core.CASE_SECONDS = 120
     want_cache = {}
     for ident in idents:
-        for role in ("state", "parameter", "intermediate", "conditional"):
+        for role, ru in (("state", False), ("parameter", False), ("intermediate", False), ("conditional", False),
+                         ("unread_state", True), ("unread_intermediate", True), ("unread_parameter", True),
+                         ("unread_state", False), ("state", True), ("intermediate", True)):
+            if a.tier == "quick" and (role, ru) in (("unread_state", False), ("state", True), ("intermediate", True)) \
+                    and hash((ident, role, a.seed, "ru")) % 3:
+                continue
             fresh = "zq_fresh"
             text = model_text(ident, role)
             ref_text = model_text(fresh, role)
@@ -145,10 +161,10 @@ def main(argv=None):
                 backends.append("jax")
             for be in backends:
                 def one():
-                    got = observe(text, be, {ident: "ID"})
-                    if (role, be) not in want_cache:
-                        want_cache[(role, be)] = observe(ref_text, be, {fresh: "ID"})
-                    want = want_cache[(role, be)]
+                    got = observe(text, be, {ident: "ID"}, ru)
+                    if (role, be, ru) not in want_cache:
+                        want_cache[(role, be, ru)] = observe(ref_text, be, {fresh: "ID"}, ru)
+                    want = want_cache[(role, be, ru)]
                     rep.count(f"{be}:{got[0]}")
                     if want[0] != "ok":
                         rep.count("reference_model_failed:" + str(want[1])[:40])
@@ -156,7 +172,7 @@ def main(argv=None):
                     if got[0] == "error":
                         return   # rejected with an error: allowed
                     if got[0] == "broken":
-                        rep.violation(f"identifier {ident!r} as {role} ({be}): {got[1]}", {"kind": "direct", "text": text, "identifier": ident, "role": role, "backend": be})
+                        rep.violation(f"identifier {ident!r} as {role} ({be}, remove_unused={ru}): {got[1]}", {"kind": "direct", "text": text, "identifier": ident, "role": role, "backend": be, "remove_unused": ru})
                         return
                     for fn, vals in want[1].items():
                         g = got[1].get(fn, {})
@@ -165,14 +181,15 @@ def main(argv=None):
                             if isinstance(v, bool):
                                 continue
                             if gv is None or not (close(gv, v, abs(v), 1e-9) or (gv != gv and v != v)):
-                                rep.violation(f"identifier {ident!r} as {role} ({be}): {fn}[{k_}] = {gv!r}, with the identifier renamed it is {v!r}",
-                                              {"kind": "direct", "text": text, "renamed": ref_text, "identifier": ident, "role": role, "backend": be, "function": fn})
+                                rep.violation(f"identifier {ident!r} as {role} ({be}, remove_unused={ru}): {fn}[{k_}] = {gv!r}, with the identifier renamed it is {v!r}",
+                                              {"kind": "direct", "text": text, "renamed": ref_text, "identifier": ident, "role": role, "backend": be, "function": fn,
+                                               "remove_unused": ru})
                                 return
                     # capture-freedom of the accepted numpy code (validators)
                     if be == "numpy" and not keyword.iskeyword(ident):   # keywords are renamed (x_) consistently by the printer
                         c = pipeline.Case(drv, text)
                         if c.mirror is not None and c.mirror.get("status") == "ok" and not c.layout_mismatches():
-                            code = impl.gen_python(c.ode, schemes=["explicit_euler"])
+                            code = impl.gen_python(c.ode, schemes=["explicit_euler"], remove_unused=ru)
                             fns = impl.export_functions(code)
                             lay = c.impl_layout()
                             v1 = pipeline.validate(drv, "rhs", 1, len(lay["sorted_states"]), [], impl.body_to_sx(fns["rhs"]["body"]))
@@ -182,13 +199,14 @@ def main(argv=None):
                                               {"kind": "validator", "relation": "Sem.valid_body (fresh, non-reserved bindings)", "text": text, "failing_input": None},
                                               failing_input_found=False)
                 core.guarded(rep, text, one)
-                rep.case(key=(ident, role, be), nontrivial=ident not in SHAPES)
+                rep.case(key=(ident, role, be, ru), nontrivial=ident not in SHAPES)
         rep.sample({"identifier": ident, "text": model_text(ident, "parameter")}, limit=3)
     drv.close()
     return rep.finish(
         level="proof",
         rule="identifiers from five families (names the templates / generators use, Python keywords and builtins, C keywords and libm names, "
-             "numpy / math / sympy names, underscore / digit / d..._dt shapes) x role (state, parameter, intermediate) x backend (numpy always, C and jax "
+             "numpy / math / sympy names, underscore / digit / d..._dt shapes) x role (state, parameter, intermediate, conditional intermediate; and state / "
+             "intermediate / parameter that no expression reads) x remove_unused x backend (numpy always, C and jax "
              "on a subsample in the quick tier); each against the same model with the identifier renamed; non-trivial = the identifier is not "
              "from the plain-shape family",
         trusted_base=["Coq 8.16.1 kernel", "extraction + ocaml/driver.ml", "gcc, jax, numpy as executors"],
